@@ -44,6 +44,39 @@ MUTS = [
      "I = (ref_timegrid.timepoints>=self.start) & (ref_timegrid.timepoints<=self.end)", ["C19", "C08"]),
     ("c19_Dt_shifted", "eaopack/basic_classes.py", "self.Dt         = np.cumsum(self.dt) # total duration since start (in main time unit)",
      "self.Dt         = np.cumsum(self.dt) - self.dt # total duration since start (in main time unit)", ["C19", "C02"]),
+    ("c18_sign_flip", "eaopack/io.py", "duals.loc[times[id[0]], name_nodal_price] = -res.duals['N'][ii]",
+     "duals.loc[times[id[0]], name_nodal_price] = res.duals['N'][ii]", ["C18"]),
+    ("c18_wrong_step", "eaopack/io.py", "duals.loc[times[id[0]], name_nodal_price] = -res.duals['N'][ii]",
+     "duals.loc[times[max(id[0]-1,0)], name_nodal_price] = -res.duals['N'][ii]", ["C18"]),
+    ("c18_duals_from_S", "eaopack/io.py", "duals.loc[times[id[0]], name_nodal_price] = -res.duals['N'][ii]",
+     "duals.loc[times[id[0]], name_nodal_price] = -(res.duals['S'] if res.duals.get('S') is not None and len(res.duals['S'])>ii else res.duals['N'])[ii]", ["C18"]),
+    ("c02_cost_in_sign", "eaopack/assets.py", "c[0,:] = -c[0,:]*self.cost_in", "c[0,:] = c[0,:]*self.cost_in", ["C02"]),
+    ("c02_cap_out_without_dt", "eaopack/assets.py", "ct = self.cap_out * dt #  Adjust capacity (unit is in vol/h)",
+     "ct = self.cap_out * np.ones(len(dt)) #  Adjust capacity (unit is in vol/h)", ["C02", "C05", "C12"]),
+    ("c02_discount_360", "eaopack/basic_classes.py", "d = (1.+wacc)**(1./365.)", "d = (1.+wacc)**(1./360.)", ["C02", "C19"]),
+    ("c02_eff_on_discharge", "eaopack/assets.py", "A = sp.hstack((A*self.eff_in, A )) # for in and out",
+     "A = sp.hstack((A, A*self.eff_in )) # for in and out", ["C02", "C05"]),
+    ("c02_prorate_full_duration", "eaopack/assets.py",
+     "my_v = v / ((e-s)/pd.Timedelta(1, timegrid.main_time_unit)) * timegrid.dt[map.loc[I, 'time_step'].unique()].sum()",
+     "my_v = v", ["C02", "C08"]),
+    ("c05_end_level_without_inflow", "eaopack/assets.py",
+     "            b[-1] = self.end_level - self.start_level   - inflow[-1]\n",
+     "            b[-1] = self.end_level - self.start_level\n", ["C05", "C02"]),
+    ("c05_fill_level_without_start", "eaopack/assets.py", "fill_level = fill_level.cumsum() + self.start_level",
+     "fill_level = fill_level.cumsum()", ["C05"]),
+    ("c06_min_runtime_short", "eaopack/assets.py", "                for i in range(1, min_runtime):\n                    if i > t:\n                        continue\n                    a = sp.lil_matrix((1, op.A.shape[1]))\n                    a[0, self.on_idx + t] = 1\n                    a[0, self.start_idx + t - i] = -1",
+     "                for i in range(1, min_runtime - 1):\n                    if i > t:\n                        continue\n                    a = sp.lil_matrix((1, op.A.shape[1]))\n                    a[0, self.on_idx + t] = 1\n                    a[0, self.start_idx + t - i] = -1", ["C06"]),
+    ("c06_fuel_factor", "eaopack/assets.py", "initial_map['disp_factor'] = -1. / fuel_efficiency", "initial_map['disp_factor'] = -1. * fuel_efficiency", ["C06"]),
+    ("c06_first_step_ramp_row_dropped", "eaopack/assets.py", "            if not include_on_variables:\n                op.b = np.hstack([op.b, last_dispatch + ramp])\n",
+     "            if not include_on_variables:\n                op.b = np.hstack([op.b, last_dispatch + 100*ramp])\n", ["C06"]),
+    ("c08_orders_start_exclusive", "eaopack/assets.py", "myI = (tp>=mys) & (tp<mye)", "myI = (tp>mys) & (tp<mye)", ["C20", "C08"]),
+    ("c20_order_end_inclusive", "eaopack/assets.py", "myI = (tp>=mys) & (tp<mye)", "myI = (tp>=mys) & (tp<=mye)", ["C20", "C08"]),
+    ("c20_cost_without_dt", "eaopack/assets.py", "c[iO] = myc * sum(dt[myI] * discount_factors[myI]) *myp", "c[iO] = myc * sum(discount_factors[myI]) *myp", ["C20"]),
+    ("c09_sort_assets_by_name", "eaopack/portfolio.py", "        self.assets = assets\n", "        self.assets = sorted(assets, key = lambda a: a.name)\n        self.asset_names = [a.name for a in self.assets]\n", ["C09"]),
+    ("c14_Dt_from_zero", "eaopack/portfolio.py", "            timegrid_tmp.I = np.array(range(0, timegrid_tmp.T))  \n",
+     "            timegrid_tmp.I = np.array(range(0, timegrid_tmp.T))  \n            timegrid_tmp.Dt = np.cumsum(timegrid_tmp.dt)\n", ["C14"]),
+    ("c15_date_exclusive_and_rowpos", "eaopack/portfolio.py", "            I = mapping.index[I].unique() # the variables (the mapping may contain several rows per variable)\n",
+     "            I = np.where(I.values)[0][np.where(I.values)[0] < n_vars] # positions\n", ["C15"]),
 ]
 
 
